@@ -1,6 +1,7 @@
 package main
 
 import (
+	"os"
 	"math/big"
 	"reflect"
 	"fmt"
@@ -129,6 +130,14 @@ func isRawMessage(t types.Type) bool {
 }
 
 func (x *Exec) jsonConvert(v Value, st, dt types.Type, fold bool) (Value, bool) {
+	r, ok := x.jsonConvert0(v, st, dt, fold)
+	if !ok && os.Getenv("VERIF_JSONDEBUG") != "" {
+		fmt.Fprintf(os.Stderr, "jsonConvert failed: %s -> %s (%T)\n", st, dt, v)
+	}
+	return r, ok
+}
+
+func (x *Exec) jsonConvert0(v Value, st, dt types.Type, fold bool) (Value, bool) {
 	if types.Identical(st, dt) {
 		return x.deepCopyJSON(v), true
 	}
@@ -176,6 +185,12 @@ func (x *Exec) jsonConvert(v Value, st, dt types.Type, fold bool) (Value, bool) 
 		case "json":
 			arg := ti.arg
 			if iv, ok := arg.(*IfaceV); ok && iv != nil {
+				if !isEmptyIface(dt) {
+					// the document encodes a value of type iv.T: decode it into the target
+					if _, isStr := dt.Underlying().(*types.Basic); !isStr || !types.Identical(iv.T.Underlying(), dt.Underlying()) {
+						return x.jsonConvert(iv.V, iv.T, dt, fold)
+					}
+				}
 				arg = iv.V
 			}
 			if isEmptyIface(dt) {
@@ -193,6 +208,27 @@ func (x *Exec) jsonConvert(v Value, st, dt types.Type, fold bool) (Value, bool) 
 	}
 	if isEmptyIface(dt) {
 		return &IfaceV{T: st, V: x.deepCopyJSON(v)}, true
+	}
+	// custom encoders: a type with MarshalJSON is encoded by it (the method hands some wire value to the JSON encoder)
+	if m := x.findMethod(st, nil, "MarshalJSON"); m != nil && !x.inJSONMethod[m] {
+		if p, isPtr := v.(*Pointer); isPtr && p == nil {
+			return x.zero(dt), true
+		}
+		x.inJSONMethod[m] = true
+		res := x.call(m, []Value{v}, nil)
+		delete(x.inJSONMethod, m)
+		tp, _ := res.(*Tuple)
+		if tp == nil || len(tp.Elems) != 2 {
+			return nil, false
+		}
+		if e, _ := tp.Elems[1].(*IfaceV); e != nil {
+			return nil, false
+		}
+		sl, _ := tp.Elems[0].(*SliceV)
+		if sl == nil {
+			return nil, false
+		}
+		return x.jsonConvert(sl, rawMessageType(x), dt, fold)
 	}
 	if sp, ok := st.Underlying().(*types.Pointer); ok {
 		if _, isStruct := sp.Elem().Underlying().(*types.Struct); isStruct {
@@ -253,9 +289,95 @@ func (x *Exec) jsonConvert(v Value, st, dt types.Type, fold bool) (Value, bool) 
 		}
 		return out, true
 	}
+	// pointer to struct on the receiving side: a fresh object holding the converted value (null stays nil)
+	if dp, ok := dt.Underlying().(*types.Pointer); ok {
+		if _, isStruct := dp.Elem().Underlying().(*types.Struct); isStruct {
+			if iv, isI := v.(*IfaceV); isI && iv == nil {
+				return (*Pointer)(nil), true
+			}
+			cv, ok := x.jsonConvert(v, st, dp.Elem(), fold)
+			if !ok {
+				return nil, false
+			}
+			return &Pointer{Obj: x.newObj(cv, "json")}, true
+		}
+	}
+	// a value held in an interface: what is encoded is its dynamic value
+	if _, isIface := st.Underlying().(*types.Interface); isIface {
+		iv, _ := v.(*IfaceV)
+		if iv == nil {
+			return x.zero(dt), true
+		}
+		return x.jsonConvert(iv.V, iv.T, dt, fold)
+	}
+	// custom decoders: a type whose pointer has UnmarshalJSON decodes the member's text itself
+	if m := x.findMethod(types.NewPointer(dt), nil, "UnmarshalJSON"); m != nil && !x.inJSONMethod[m] {
+		if _, named := dt.(*types.Named); named {
+			obj := x.newObj(x.zero(dt), "json")
+			var data *SliceV
+			if isRawMessage(st) {
+				data, _ = v.(*SliceV)
+			} else {
+				data = x.byteSlice(x.newToken("json", &IfaceV{T: st, V: v}).B)
+			}
+			x.inJSONMethod[m] = true
+			res := x.call(m, []Value{&Pointer{Obj: obj}, data}, nil)
+			delete(x.inJSONMethod, m)
+			if e, _ := res.(*IfaceV); e != nil {
+				return nil, false
+			}
+			return obj.Val, true
+		}
+	}
+	// slices element by element
+	if ssl, ok := st.Underlying().(*types.Slice); ok {
+		if dsl, ok := dt.Underlying().(*types.Slice); ok && !isRawMessage(st) {
+			sv, _ := v.(*SliceV)
+			if sv == nil {
+				return (*SliceV)(nil), true
+			}
+			var out []Value
+			for _, e := range x.sliceElems(sv) {
+				cv, ok := x.jsonConvert(e, ssl.Elem(), dsl.Elem(), fold)
+				if !ok {
+					return nil, false
+				}
+				out = append(out, cv)
+			}
+			return x.newSlice(out, "json"), true
+		}
+	}
+	// maps with string keys, value by value
+	if sm, ok := st.Underlying().(*types.Map); ok {
+		if dm, ok := dt.Underlying().(*types.Map); ok {
+			mv, _ := v.(*MapV)
+			if mv == nil {
+				return (*MapV)(nil), true
+			}
+			x.nobj++
+			n := &MapV{ID: x.nobj}
+			for _, e := range mv.Entries {
+				cv, ok := x.jsonConvert(e.V, sm.Elem(), dm.Elem(), fold)
+				if !ok {
+					return nil, false
+				}
+				n.Entries = append(n.Entries, &MapEntry{K: e.K, V: cv, Present: e.Present})
+			}
+			return n, true
+		}
+	}
+	// named scalar types with the same underlying type (type resultType string)
+	if sb, ok := st.Underlying().(*types.Basic); ok {
+		if db, ok := dt.Underlying().(*types.Basic); ok && sb.Kind() == db.Kind() {
+			return v, true
+		}
+	}
 	ss, ok1 := st.Underlying().(*types.Struct)
 	ds, ok2 := dt.Underlying().(*types.Struct)
 	if !ok1 || !ok2 {
+		if os.Getenv("VERIF_JSONDEBUG") != "" {
+			fmt.Fprintf(os.Stderr, "jsonConvert: no rule for %s -> %s\n", st, dt)
+		}
 		return nil, false
 	}
 	sa, _ := v.(*Agg)
@@ -263,32 +385,155 @@ func (x *Exec) jsonConvert(v Value, st, dt types.Type, fold bool) (Value, bool) 
 	if sa == nil || out == nil {
 		return nil, false
 	}
-	for i := 0; i < ds.NumFields(); i++ {
-		dn, _, _, skip := jsonField(ds.Field(i), ds.Tag(i))
-		if skip || ds.Field(i).Embedded() {
-			continue
-		}
-		for j := 0; j < ss.NumFields(); j++ {
-			sn, omitEmpty, omitZero, sskip := jsonField(ss.Field(j), ss.Tag(j))
-			if sskip || sn != dn {
+	// members as encoding/json sees them: embedded structs are flattened, the shallowest member of a name wins
+	sf, df := jsonFields(ss), jsonFields(ds)
+	for _, d := range df {
+		for _, sfl := range sf {
+			if sfl.name != d.name {
 				continue
 			}
-			if ss.Field(j).Embedded() {
-				return nil, false
+			fv, present := x.jsonFieldGet(sa, sfl.path)
+			if !present {
+				break
 			}
-			fv := sa.Elems[j]
-			if (omitEmpty || omitZero) && x.jsonEmpty(fv) {
+			if (sfl.omitEmpty || sfl.omitZero) && x.jsonEmpty(fv) {
 				break // not transmitted: the target keeps its zero value
 			}
-			cv, ok := x.jsonConvert(fv, ss.Field(j).Type(), ds.Field(i).Type(), fold)
+			cv, ok := x.jsonConvert(fv, sfl.typ, d.typ, fold)
 			if !ok {
 				return nil, false
 			}
-			out.Elems[i] = cv
+			if !x.jsonFieldSet(out, d.path, cv) {
+				return nil, false
+			}
 			break
 		}
 	}
 	return out, true
+}
+
+type jsonFieldInfo struct {
+	name                string
+	path                []int
+	typ                 types.Type
+	omitEmpty, omitZero bool
+	tagged              bool
+}
+
+// jsonFields lists the members of a struct the way encoding/json does: exported fields by their JSON names, the fields
+// of embedded structs promoted (unless the embedded field carries its own name), shadowed by shallower fields of the
+// same name; among several at the same depth only a tagged one survives.
+func jsonFields(t *types.Struct) []jsonFieldInfo {
+	type item struct {
+		st   *types.Struct
+		path []int
+	}
+	level := []item{{t, nil}}
+	byName := map[string][]jsonFieldInfo{}
+	depthOf := map[string]int{}
+	var order []string
+	for depth := 0; len(level) > 0 && depth < 4; depth++ {
+		var next []item
+		for _, it := range level {
+			for i := 0; i < it.st.NumFields(); i++ {
+				f := it.st.Field(i)
+				tag := reflect.StructTag(it.st.Tag(i)).Get("json")
+				if tag == "-" {
+					continue
+				}
+				path := append(append([]int{}, it.path...), i)
+				tagName := strings.Split(tag, ",")[0]
+				if f.Embedded() && tagName == "" {
+					ft := f.Type()
+					if p, ok := ft.Underlying().(*types.Pointer); ok {
+						ft = p.Elem()
+					}
+					if es, ok := ft.Underlying().(*types.Struct); ok {
+						next = append(next, item{es, path})
+						continue
+					}
+				}
+				n, oe, oz, skip := jsonField(f, it.st.Tag(i))
+				if skip {
+					continue
+				}
+				if d, seen := depthOf[n]; seen && d < depth {
+					continue
+				}
+				if _, seen := depthOf[n]; !seen {
+					order = append(order, n)
+				}
+				depthOf[n] = depth
+				byName[n] = append(byName[n], jsonFieldInfo{name: n, path: path, typ: f.Type(), omitEmpty: oe, omitZero: oz, tagged: tagName != ""})
+			}
+		}
+		level = next
+	}
+	var out []jsonFieldInfo
+	for _, n := range order {
+		fs := byName[n]
+		if len(fs) == 1 {
+			out = append(out, fs[0])
+			continue
+		}
+		var tagged []jsonFieldInfo
+		for _, f := range fs {
+			if f.tagged {
+				tagged = append(tagged, f)
+			}
+		}
+		if len(tagged) == 1 {
+			out = append(out, tagged[0])
+		}
+	}
+	return out
+}
+
+func (x *Exec) jsonFieldGet(a *Agg, path []int) (Value, bool) {
+	var cur Value = a
+	for _, i := range path {
+		switch c := cur.(type) {
+		case *Agg:
+			cur = c.Elems[i]
+		case *Pointer:
+			if c == nil {
+				return nil, false
+			}
+			ag, _ := x.load(c).(*Agg)
+			if ag == nil {
+				return nil, false
+			}
+			cur = ag.Elems[i]
+		default:
+			return nil, false
+		}
+	}
+	return cur, true
+}
+
+func (x *Exec) jsonFieldSet(a *Agg, path []int, v Value) bool {
+	cur := a
+	for k, i := range path {
+		if k == len(path)-1 {
+			cur.Elems[i] = v
+			return true
+		}
+		nx, _ := cur.Elems[i].(*Agg)
+		if nx == nil {
+			return false // embedded pointer on the receiving side: not modelled
+		}
+		cur = nx
+	}
+	return false
+}
+
+func rawMessageType(x *Exec) types.Type {
+	if p := x.prog.ImportedPackage("encoding/json"); p != nil {
+		if o := p.Pkg.Scope().Lookup("RawMessage"); o != nil {
+			return o.Type()
+		}
+	}
+	return nil
 }
 
 func isEmptyIface(t types.Type) bool {
